@@ -16,6 +16,15 @@ pub fn restore_on_err(
 ) -> OptimizedRule {
     let OptimizedRule { name, ty, expr } = rule;
     let expr = expr.map_bottom_up(|expr| wrap_branching_exprs(expr, rules));
+    // WHITESPACE and COMMENT are attempted between the elements of sequences and repetitions,
+    // like the operand of an explicit `*`: a failed attempt must leave the stack as it was.
+    let expr = if (name == "WHITESPACE" || name == "COMMENT")
+        && child_modifies_state(&expr, rules, &mut HashMap::new())
+    {
+        OptimizedExpr::RestoreOnErr(Box::new(expr))
+    } else {
+        expr
+    };
     OptimizedRule { name, ty, expr }
 }
 
